@@ -4,11 +4,8 @@
    `Reach c s`: s is reachable from the fresh connection by ANY sequence of enabled events (reads with any parse
    items, handler starts/ends of every kind, clock advances, peer close) under ANY configuration c. *)
 From Coq Require Import Sorted.
-From AV Require Import Lib.Base Generated.ServerGen Model.ServerConn Proofs.ServerConnInv Proofs.ServerConnOrder.
+From AV Require Import Lib.Base Generated.ServerGen Model.ServerConn Proofs.ServerConnInv Proofs.ServerConnOrder Proofs.ServerConnExamples.
 Open Scope N_scope.
-
-Definition cfg0 : cfg := {| c_keepalive := 75; c_linger := 10 |}.
-Definition heads (n : nat) : list item := repeat (IHead false false) n.
 
 (* The queue never holds more than MAX+1 parsed-but-unhandled requests, and the parser never counts more than MAX
    unconsumed messages.  (MAX+1, not MAX: popping an _ErrInfo item decrements the parser's counter although that item
@@ -54,12 +51,7 @@ Print Assumptions C05_bad_input_400_close.
 Theorem C05_order_once_refuted :
   exists c s, Reach c s /\ closed s = false /\ pc s = PWait /\
               all_done (removelast (wire s)) = false /\ rids (wire s) = [0; 0].
-Proof.
-  exists cfg0. eexists. split; [eapply run_reach; [apply reach_init|]|].
-  - instantiate (1 := ltac:(let r := eval vm_compute in (run cfg0 init [EData [IHead false false]; EStart; EDone (OHttp 404)]) in
-                            match r with Some ?x => exact x end)). vm_compute. reflexivity.
-  - vm_compute. repeat split; reflexivity.
-Qed.
+Proof. exact order_once_refuted. Qed.
 Print Assumptions C05_order_once_refuted.
 
 (* What holds: the same statement for all histories in which no handler ends with a response object other than the one
@@ -78,12 +70,7 @@ Print Assumptions C05_order_once_partial.
 Theorem C05_answered_or_closed_refuted :
   exists c s s', Reach c s /\ pc s = PHandler (QMsg {| m_id := 0; m_close := false; m_body := false |}) false /\
                  step c s (EDone OSwallow) = Some s' /\ closed s' = false /\ out s' = [] /\ pc s' = PWait.
-Proof.
-  exists cfg0. eexists. eexists. split; [eapply run_reach; [apply reach_init|]|].
-  - instantiate (1 := ltac:(let r := eval vm_compute in (run cfg0 init [EData [IHead false false]]) in
-                            match r with Some ?x => exact x end)). vm_compute. reflexivity.
-  - split; [vm_compute; reflexivity|]. split; [vm_compute; reflexivity|]. vm_compute. repeat split; reflexivity.
-Qed.
+Proof. exact answered_or_closed_refuted. Qed.
 Print Assumptions C05_answered_or_closed_refuted.
 
 Theorem C05_answered_or_closed_partial : forall c s cur started o s',
@@ -99,7 +86,7 @@ Print Assumptions C05_answered_or_closed_partial.
 Example C05_example_pipeline :
   exists s, run cfg0 init [EData (heads 40)] = Some s /\
             nmsgs (q s) = 31 /\ p_infl (ps s) = 31 /\ paused s = true /\ lenN (p_tail (ps s)) = 8 /\ pc s <> PWait.
-Proof. eexists. split; [vm_compute; reflexivity|]. vm_compute. repeat split; try reflexivity; discriminate. Qed.
+Proof. exact example_pipeline. Qed.
 Print Assumptions C05_example_pipeline.
 
 (* the bound MAX+1 is attained: an _ErrInfo queued behind a running handler, then 15 requests; popping the error item
@@ -107,7 +94,7 @@ Print Assumptions C05_example_pipeline.
 Example C05_example_bound_attained :
   exists s, run cfg0 init [EData (heads 1); EData [IBad false]; EData (heads 15); EDone (ORet true 200); EData (heads 40)] = Some s /\
             nmsgs (q s) = 33 /\ pc s = PHandler QErr false.
-Proof. eexists. split; [vm_compute; reflexivity|]. vm_compute. split; reflexivity. Qed.
+Proof. exact example_bound_attained. Qed.
 Print Assumptions C05_example_bound_attained.
 
 (* a parse error behind two good requests: both are answered, then the 400, then the close *)
@@ -115,7 +102,7 @@ Example C05_example_400 :
   exists s, run cfg0 init [EData (heads 2); EDone (ORet true 200); EData [IBad false]; EDone (ORet true 200);
                            EDone (OHttp 400)] = Some s /\
             closed s = true /\ List.map r_status (out s) = [200; 200; 400].
-Proof. eexists. split; [vm_compute; reflexivity|]. vm_compute. split; reflexivity. Qed.
+Proof. exact example_400. Qed.
 Print Assumptions C05_example_400.
 
 (* a benign history with every kind of ending: plain, streamed, streamed-then-exception (connection closed mid-response) *)
@@ -123,8 +110,5 @@ Example C05_example_benign :
   exists s, runb cfg0 init [EData (heads 4); EDone (ORet true 200); EStart; EDone OStreamed; EDone (OHttp 404); EStart; EDone OExc] = Some s /\
             ReachB cfg0 s /\ closed s = true /\
             List.map (fun r => (r_id r, r_status r, r_done r)) (wire s) = [(Some 0, 200, true); (Some 1, 200, true); (Some 2, 404, true); (Some 3, 200, false)].
-Proof.
-  eexists. split; [vm_compute; reflexivity|]. split; [|vm_compute; split; reflexivity].
-  eapply runb_reachb; [apply reachb_init|vm_compute; reflexivity].
-Qed.
+Proof. exact example_benign. Qed.
 Print Assumptions C05_example_benign.
